@@ -22,7 +22,7 @@ def _rand(rng, alpha, lo, hi):
     return "".join(rng.choice(alpha) for _ in range(rng.randint(lo, hi)))
 
 
-def gen_secret(rng, cls, plain_alpha=False, allow_all_digit_type7=False, reserved_variants=False, plain_class=None):
+def gen_secret(rng, cls, plain_alpha=False, allow_all_digit_type7=False, reserved_variants=False, plain_class=None, dollar_text=False):
     """Return {"cls","text","cores","plain"?,"sub"?}.  Every value carries a high-entropy core."""
     if cls == "text" and reserved_variants and rng.random() < 0.12:
         # a case variant of a built-in reserved word that is not itself reserved (low entropy: no core search)
@@ -36,6 +36,11 @@ def gen_secret(rng, cls, plain_alpha=False, allow_all_digit_type7=False, reserve
             # must stay in format class "text": at least one letter outside a-f, not '$'-prefixed
             if v not in res and v.lower() in res and re.search(r"[g-zG-Z]", v):
                 return {"cls": cls, "text": v, "cores": [], "sub": "reserved-case-variant"}
+    if cls == "text" and dollar_text and rng.random() < 0.1:
+        # clear text that merely LOOKS hash-like: $word$rest with an unknown "hash id"
+        w = rng.choice(_NONHEX) + _rand(rng, string.ascii_letters + string.digits, 5, 9)
+        s = "$" + w + "$" + _rand(rng, _TEXT_ALPHA_PLAIN, 6, 12)
+        return {"cls": cls, "text": s, "cores": [s, w], "sub": "dollar-text"}
     if cls == "text":
         alpha = _TEXT_ALPHA_PLAIN if plain_alpha else _TEXT_ALPHA
         while True:
